@@ -231,6 +231,11 @@ func (g *Gen) execBlock(b *ssa.BasicBlock) error {
 	if b.Index == 0 {
 		reach = "true"
 		g.cur = g.init.clone()
+		if g.inlineEntry != nil {
+			// inlined body: starts in the caller's state, under the caller's guard
+			reach = g.entryGuard
+			g.cur = g.inlineEntry
+		}
 	} else {
 		if len(ins) == 0 {
 			// unreachable
@@ -282,8 +287,9 @@ func (g *Gen) execBlock(b *ssa.BasicBlock) error {
 	_, endsInPanic := b.Instrs[len(b.Instrs)-1].(*ssa.Panic)
 	if reach != "true" && !endsInPanic {
 		g.curGuard = reach
-		cv := g.oblige("cover", fmt.Sprintf("reach:b%d", b.Index), "false", g.blockPos(b), "block is reachable under the assumptions made up to its end")
-		cv.Must = "sat"
+		if cv := g.oblige("cover", fmt.Sprintf("reach:b%d", b.Index), "false", g.blockPos(b), "block is reachable under the assumptions made up to its end"); cv != nil {
+			cv.Must = "sat"
+		}
 	}
 	// back edges leaving this block
 	for si, s := range b.Succs {
@@ -346,6 +352,9 @@ func (g *Gen) execPhi(phi *ssa.Phi, b *ssa.BasicBlock) {
 }
 
 func (g *Gen) valName(v ssa.Value) string {
+	if g.inlinePrefix != "" {
+		return "v." + g.inlinePrefix + v.Name()
+	}
 	return "v." + v.Name()
 }
 
@@ -511,6 +520,10 @@ func (g *Gen) execInstr(in ssa.Instruction) error {
 		if pfx := localPrefix(x); pfx != "" {
 			// a local whose address never leaves the function: no callee can write
 			// it, so it lives in components of its own
+			if g.inlinePrefix != "" {
+				// private memory of one inlined call
+				pfx = "local." + g.inlinePrefix + strings.TrimPrefix(pfx, "local.")
+			}
 			g.localRefs[ref] = pfx
 		}
 		if at, ok := elem.Underlying().(*types.Array); ok && isStruct(at.Elem()) {
@@ -1177,11 +1190,15 @@ func (g *Gen) execNext(x *ssa.Next) {
 }
 
 func (g *Gen) execReturn(x *ssa.Return) {
-	g.retCount++
 	var results []*Val
 	for _, r := range x.Results {
 		results = append(results, g.val(r))
 	}
+	if g.inlineRets != nil {
+		*g.inlineRets = append(*g.inlineRets, inlineRet{g.curGuard, g.cur, results})
+		return
+	}
+	g.retCount++
 	g.checkEnsures(results, g.pos(x), fmt.Sprintf("ret%d", g.retCount))
 }
 
@@ -1342,9 +1359,17 @@ func fieldNameOfAddr(v ssa.Value) (string, ssa.Value) {
 // checkStoreSpecs: //verif:store <field> requires <expr> -- evaluated in the state
 // before the store, with newval bound to the stored value.
 func (g *Gen) checkStoreSpecs(x *ssa.Store) {
-	fname, _ := fieldNameOfAddr(x.Addr)
+	fname, base := fieldNameOfAddr(x.Addr)
 	if fname == "" {
 		return
+	}
+	// inside an inlined helper a store that initialises an object the helper has
+	// just allocated is not "a store of this function" in the sense of its contract
+	exempt := "false"
+	if len(g.inlineStack) > 0 && base != nil {
+		if bv, ok := g.vals[base]; ok && bv.T != "" {
+			exempt = sx(">=", sx("root", bv.T), "brk0")
+		}
 	}
 	if g.selectors["$stored:"+fname] {
 		g.cur.ghost["$stored:"+fname] = "true"
@@ -1371,6 +1396,9 @@ func (g *Gen) checkStoreSpecs(x *ssa.Store) {
 		label := sp.Cl.Label
 		if label == "" {
 			label = sp.Sel
+		}
+		if exempt != "false" {
+			t = or(exempt, t)
 		}
 		g.oblige("store", label, t, g.pos(x), "store to ."+sp.Sel+" requires "+sp.Cl.Src)
 	}
@@ -1554,36 +1582,48 @@ func (g *Gen) prescanCalls() {
 	if g.ghostTypes == nil {
 		g.ghostTypes = map[string]types.Type{}
 	}
-	for _, b := range g.fn.Blocks {
-		for _, in := range b.Instrs {
-			var cc *ssa.CallCommon
-			switch x := in.(type) {
-			case *ssa.Call:
-				cc = &x.Call
-			case *ssa.Defer:
-				cc = &x.Call
-			}
-			if cc == nil {
-				continue
-			}
-			for _, name := range callNames(cc) {
-				if !g.selectors[name] {
+	var ccs []*ssa.CallCommon
+	var scan func(fn *ssa.Function, depth int)
+	scan = func(fn *ssa.Function, depth int) {
+		for _, b := range fn.Blocks {
+			for _, in := range b.Instrs {
+				var cc *ssa.CallCommon
+				switch x := in.(type) {
+				case *ssa.Call:
+					cc = &x.Call
+				case *ssa.Defer:
+					cc = &x.Call
+				}
+				if cc == nil {
 					continue
 				}
-				for ai, a := range cc.Args {
-					gn := fmt.Sprintf("$arg:%s:%d", name, ai)
-					if g.argOfWanted[gn] && g.ghostSorts[gn] == "" {
-						g.ghostSorts[gn] = g.st.sortOf(a.Type())
-						g.ghostTypes[gn] = a.Type()
-					}
+				ccs = append(ccs, cc)
+				// helpers that will be inlined contribute their calls too
+				if callee := cc.StaticCallee(); callee != nil && !cc.IsInvoke() && depth < 3 && g.canInline(callee) {
+					scan(callee, depth+1)
 				}
-				rs := cc.Signature().Results()
-				for ri := 0; ri < rs.Len(); ri++ {
-					gn := fmt.Sprintf("$res:%s:%d", name, ri)
-					if g.ghostSorts[gn] == "" {
-						g.ghostSorts[gn] = g.st.sortOf(rs.At(ri).Type())
-						g.ghostTypes[gn] = rs.At(ri).Type()
-					}
+			}
+		}
+	}
+	scan(g.fn, 1)
+	for _, cc := range ccs {
+		for _, name := range callNames(cc) {
+			if !g.selectors[name] {
+				continue
+			}
+			for ai, a := range cc.Args {
+				gn := fmt.Sprintf("$arg:%s:%d", name, ai)
+				if g.argOfWanted[gn] && g.ghostSorts[gn] == "" {
+					g.ghostSorts[gn] = g.st.sortOf(a.Type())
+					g.ghostTypes[gn] = a.Type()
+				}
+			}
+			rs := cc.Signature().Results()
+			for ri := 0; ri < rs.Len(); ri++ {
+				gn := fmt.Sprintf("$res:%s:%d", name, ri)
+				if g.ghostSorts[gn] == "" {
+					g.ghostSorts[gn] = g.st.sortOf(rs.At(ri).Type())
+					g.ghostTypes[gn] = rs.At(ri).Type()
 				}
 			}
 		}
